@@ -24,13 +24,14 @@ import (
 type OpKind string
 
 const (
-	OpCreate OpKind = "create" // create or truncate to zero
-	OpWrite  OpKind = "write"
-	OpSync   OpKind = "sync"
-	OpRename OpKind = "rename"
-	OpRemove OpKind = "remove"
-	OpMkdir  OpKind = "mkdir"
-	OpTrunc  OpKind = "truncate"
+	OpCreate  OpKind = "create" // create or truncate to zero
+	OpWrite   OpKind = "write"
+	OpSync    OpKind = "sync"
+	OpRename  OpKind = "rename"
+	OpRemove  OpKind = "remove"
+	OpMkdir   OpKind = "mkdir"
+	OpTrunc   OpKind = "truncate"
+	OpSymlink OpKind = "symlink" // Path: the link, Path2: its target
 )
 
 type Op struct {
@@ -48,7 +49,8 @@ type file struct {
 }
 
 type FS struct {
-	TempSeq int // counter behind the CreateTemp shim
+	TempSeq int               // counter behind the CreateTemp shim
+	links   map[string]string // symbolic links: path -> target
 	mu      sync.Mutex
 	files   map[string]*file
 	dirs    map[string]bool
@@ -61,13 +63,44 @@ type FS struct {
 }
 
 func New() *FS {
-	return &FS{files: map[string]*file{}, dirs: map[string]bool{"/": true}, Ops: map[OpKind]int{}}
+	return &FS{files: map[string]*file{}, dirs: map[string]bool{"/": true}, Ops: map[OpKind]int{}, links: map[string]string{}}
 }
 
 // Cur is the file system the shims operate on.
 var Cur = New()
 
 func clean(p string) string { return filepath.Clean(p) }
+
+// resolve follows symbolic links (the last path element only; a handful of levels).
+func (f *FS) resolve(p string) string {
+	p = clean(p)
+	f.mu.Lock()
+	defer f.mu.Unlock()
+	for i := 0; i < 8; i++ {
+		t, ok := f.links[p]
+		if !ok {
+			break
+		}
+		if !filepath.IsAbs(t) {
+			t = filepath.Join(filepath.Dir(p), t)
+		}
+		p = clean(t)
+	}
+	return p
+}
+
+// Symlink creates a symbolic link at path pointing to target.
+func (f *FS) Symlink(target, path string) error {
+	return f.do(Op{Kind: OpSymlink, Path: clean(path), Path2: target})
+}
+
+// IsLink reports whether path itself is a symbolic link, and its target.
+func (f *FS) IsLink(path string) (string, bool) {
+	f.mu.Lock()
+	defer f.mu.Unlock()
+	t, ok := f.links[clean(path)]
+	return t, ok
+}
 
 func (f *FS) hook(op *Op) (error, int) {
 	f.Ops[op.Kind]++
@@ -106,11 +139,23 @@ func (f *FS) apply(op Op) {
 			fl.synced = len(fl.data)
 		}
 	case OpRename:
-		if fl := f.files[op.Path]; fl != nil {
+		// the directory entry at the destination is replaced, whatever it was (file or link)
+		if tgt, ok := f.links[op.Path]; ok {
+			delete(f.links, op.Path)
+			delete(f.files, op.Path2)
+			f.links[op.Path2] = tgt
+		} else if fl := f.files[op.Path]; fl != nil {
+			delete(f.links, op.Path2)
 			f.files[op.Path2] = fl
 			delete(f.files, op.Path)
 		}
+	case OpSymlink:
+		f.links[op.Path] = op.Path2
 	case OpRemove:
+		if _, ok := f.links[op.Path]; ok {
+			delete(f.links, op.Path)
+			break
+		}
 		delete(f.files, op.Path)
 		for p := range f.files {
 			if strings.HasPrefix(p, op.Path+"/") {
@@ -193,6 +238,9 @@ func (f *FS) PowerLoss(p string, n int, garbage []byte) *FS {
 	for d := range f.dirs {
 		c.dirs[d] = true
 	}
+	for l, t := range f.links {
+		c.links[l] = t
+	}
 	for q, fl := range f.files {
 		data := append([]byte(nil), fl.data...)
 		if q == p {
@@ -212,6 +260,7 @@ func (f *FS) Clone() *FS {
 }
 
 func (f *FS) ReadFile(p string) ([]byte, error) {
+	p = f.resolve(p)
 	f.mu.Lock()
 	defer f.mu.Unlock()
 	fl := f.files[clean(p)]
@@ -251,9 +300,21 @@ func (f *FS) IsDir(p string) bool {
 }
 
 func (f *FS) Exists(p string) bool {
+	p = f.resolve(p)
 	f.mu.Lock()
 	defer f.mu.Unlock()
 	return f.files[clean(p)] != nil || f.dirs[clean(p)]
+}
+
+// Size returns the length of the file behind p (following links).
+func (f *FS) Size(p string) int64 {
+	p = f.resolve(p)
+	f.mu.Lock()
+	defer f.mu.Unlock()
+	if fl := f.files[p]; fl != nil {
+		return int64(len(fl.data))
+	}
+	return 0
 }
 
 // ---------------------------------------------------------------------------
@@ -278,7 +339,7 @@ const (
 )
 
 func (f *FS) OpenFile(name string, flag int, perm uint32) (*Handle, error) {
-	p := clean(name)
+	p := f.resolve(name)
 	f.mu.Lock()
 	fl := f.files[p]
 	f.mu.Unlock()
